@@ -987,7 +987,7 @@ class RejectGen(Gen):
         r = self.rng
         kind = r.choice(["new-dup", "new-twin", "new-parent", "new-registry", "new-id",
                          "attach-parent", "attach-registry", "attach-rootid", "attach-stale-cid",
-                         "replace-bad", "replace-dup", "replace-parent", "replace-registry",
+                         "replace-bad", "replace-dup", "replace-parent", "replace-registry", "replace-ancestor",
                          "rwith-subtree", "rwith-none", "rwith-type", "rwith-attach-parent", "rwith-attach-registry",
                          "rwith-ancestor", "rwith-ancestor", "rwith-self", "rwith-falsy"]
                         + (["tvisit-raise", "tvisit-none", "tvisit-type", "texec-type", "tvisit-detached"]
@@ -1079,6 +1079,34 @@ class RejectGen(Gen):
             if p is None:
                 return None
             return Op(self.uid(), "attach", self.name(p)), label
+        if kind == "replace-ancestor":
+            # replace() of an attached inner node with one of its own (non-root) ancestors among the new children: the
+            # ancestor has a parent, so the call is rejected (ParentCollision) -- after the receiver was taken out of its
+            # parent; everything is put back
+            lf = self.leaf()
+            if lf is None:
+                return None
+            recv = self.mk(r.choice(["LTup", "LLst", "LFTup"]), {"items": [self.name(lf)]})
+            if recv is None:
+                return None
+            sibs = [x for x in (self.leaf(), self.leaf()) if x is not None]
+            j = {"first": 0, "middle": 1 if sibs else 0, "last": len(sibs)}[where]
+            par = self.mk(r.choice(["LTup", "LLst"]), {"items": [self.name(x) for x in sibs[:j] + [recv] + sibs[j:]]})
+            if par is None:
+                return None
+            chain = [par]
+            for _ in range(1 + depth):
+                cls2 = r.choice(["LUn", "LTup", "LFUn"])
+                top = self.mk(cls2, {"arg": self.name(chain[-1])} if cls2 in ("LUn", "LFUn") else {"items": [self.name(chain[-1])]})
+                if top is None:
+                    return None
+                chain.append(top)
+            anc = r.choice(chain[:-1])                 # any ancestor except the root of the tree
+            extra = self.leaf() if where != "first" else None
+            val = [self.name(anc)] + ([self.name(extra)] if extra is not None else [])
+            if where == "last":
+                val.reverse()
+            return Op(self.uid(), "replace", self.name(recv), {"changes": {"items": val}, "bad": [], "cyc": True}), label
         if kind.startswith("replace-"):
             roots, subs, det = self.pool()
             inner = [o for o in roots + subs + det if Z.CLASSES[Z.cname(o)]["fields"]]
